@@ -263,6 +263,44 @@ func prov(v ssa.Value, seen map[ssa.Value]bool, out Origins) {
 						prov(st.Val, seen, out)
 					}
 				}
+			case *ssa.MakeClosure:
+				// a captured variable: what the literal stores into it, and — for a map — what it
+				// puts into the map it finds there
+				fn, _ := s.Fn.(*ssa.Function)
+				if fn == nil {
+					continue
+				}
+				// only for a captured map: what a literal puts into it belongs to its contents
+				if pt, ok := x.Type().Underlying().(*types.Pointer); !ok {
+					continue
+				} else if _, isMap := pt.Elem().Underlying().(*types.Map); !isMap {
+					continue
+				}
+				for i, bnd := range s.Bindings {
+					if bnd != ssa.Value(x) || i >= len(fn.FreeVars) {
+						continue
+					}
+					fv := fn.FreeVars[i]
+					for _, fr := range *fv.Referrers() {
+						switch y := fr.(type) {
+						case *ssa.UnOp:
+							for _, lr := range *y.Referrers() {
+								if mu, ok := lr.(*ssa.MapUpdate); ok && mu.Map == ssa.Value(y) {
+									prov(mu.Key, seen, out)
+									prov(mu.Value, seen, out)
+								}
+							}
+						}
+					}
+				}
+			case *ssa.UnOp:
+				// the variable's own value used as a map in this function
+				for _, lr := range *s.Referrers() {
+					if mu, ok := lr.(*ssa.MapUpdate); ok && mu.Map == ssa.Value(s) {
+						prov(mu.Key, seen, out)
+						prov(mu.Value, seen, out)
+					}
+				}
 			}
 		}
 	case *ssa.Next, *ssa.Range:
